@@ -899,7 +899,7 @@ fn main() {
         rep.count("stratum:corpus");
         handle(&mut rep, format!("corpus:{tag}"), &h, true);
     }
-    let n = args.cases(6, 120);
+    let n = args.cases(4, 120);
     for i in 0..n {
         let mut rng = Rng::for_case(args.seed, 1000 + i);
         let pair = i % 3 == 2;
